@@ -2,6 +2,44 @@
 SOURCE_COMMITS = []
 NOT_APPLICABLE = {}
 CHECKS = {
+ "C08": {
+  "text": "ArtifactPack.tla is model-checked exhaustively (tree algebra up to 4 nodes; extractor state machine over a hostile "
+          "member grammar with invariant Confined; corruption classes x reader outcomes x builder verification with invariant "
+          "AcceptRule). Every TLC-enumerated tree is packed and downloaded through the real LocalArchive and "
+          "LocalBuilder._downloadPackage and compared by hashDirectory and an independent tree walker; every TLC hostile "
+          "sequence is written as a real pax tgz and downloaded with a sentinel fingerprint around the workspace; real "
+          "artifacts are truncated at every length, bit-flipped per gzip region, replaced by wrong formats and content "
+          "mismatches. Bounded model checking of the extraction rules plus conformance on generated cases, not a proof of "
+          "tarfile or the code.",
+  "design_ref": "DESIGN.md section 4, C08",
+  "note": "CPython 3.12 tarfile semantics as transcribed (validated by zero drift); directory hash assumed injective on generated trees (cross-checked by the walker); stub step object and inline executor; runs as root; corruption on all small trees plus a seed sample",
+  "technique": "TLA+ spec + TLC exhaustive check; TLC-enumerated cases replayed into TarHelper/LocalArchive/LocalBuilder._downloadPackage with independent walker and sentinel oracle; exhaustive truncation and sampled bit-flip loop",
+ },
+ "C11": {
+  "text": "DirHash.tla models the directory walk and the persistent hash cache step-wise after FileIndex (merge of old index and "
+          "sorted walk with '/'-suffixed directory keys). TLC checks CacheTransparent/IndexSorted/IndexNeverLies exhaustively "
+          "over every sequence of <=3 (thorough <=4) create/modify/same-size-rewrite/same-mtime-replace/chmod/delete/rename/"
+          "type-replacement operations from 6 base trees and over all (old index, tree) pairs. All TLC-enumerated 2-step "
+          "behaviours plus simulated 8-step behaviours are replayed on real directories, comparing hashDirectory with and "
+          "without cache, an independent canonical SHA-1 serialisation and (drift only) the real cache file against the model "
+          "index; the TLC-enumerated tree universe is bucketed by real hash against abstract tree equality. Bounded model "
+          "checking plus conformance testing, not a proof.",
+  "design_ref": "DESIGN.md section 4, C11",
+  "note": "every modification changes mtime (1 ns virtual clock) or inode; no concurrent modification while hashing; regular files, symlinks and directories only; SHA-1 collision-free on the generated trees; canonical serialisation re-implemented from the documented format",
+  "technique": "TLA+ spec + TLC exhaustive check (step-wise FileIndex model, all-pairs merge config, coverage and reach vacuity); TLC-generated behaviours replayed on real file systems against an independent canonical hash; bucket check of the TLC-enumerated tree universe",
+ },
+ "C13": {
+  "text": "StepEnv.tla defines, per configuration (-E, whitelist settings, sandbox mode none/slim/dev/strict/image, dependency "
+          "order, tool consumption), the documented visible-variable classes per step, argument order, tool paths and "
+          "readable/writable workspace sets; TLC enumerates all configurations and checks 16 consistency invariants; the "
+          "configurations are replayed as real `bob dev` runs whose checkout/build/package/fingerprint scripts dump their own "
+          "environment (NUL separated), arguments, tool paths and sandbox view, with hostile values instantiated per seed. "
+          "Exhaustive over the configuration space of the spec, sampled over values; conformance testing of the code, not a proof.",
+  "design_ref": "DESIGN.md section 4, C13",
+  "note": "bash/env/coreutils of the host, the kernel's mount namespaces, the transcription of the manual into StepEnv.tla; values sampled per seed, names are identifiers plus a newline probe",
+  "technique": "explicit TLA+ function specification enumerated by TLC; one real project per configuration whose step scripts dump environment, arguments, tool paths and sandbox view (spec -> code replay)",
+ },
+
  "C05": {
   "text": "BobBuild.tla (develop-mode builder: checkout/build/package micro-operations, edits incl. reverts, failing scripts, "
           "kill between every two persistent-state updates or destructive file-system effects and inside scripts) is "
